@@ -14,6 +14,7 @@
     todict cont|disc …(as write, no onhour/mode)            to_dict: datetimes key
     daysim ts leap n i…                       from_daysim_file on n lines with ids 0…n-1: ids at i…
     const v (tok… |)…                         to_constant_value on tokenised body lines
+    hoymoy hoybits…                           minute of the year filter_by_hoys looks up for each hour
     count n                                   count_timesteps for a file of n lines
 -/
 import Ladybug.DrvCore
@@ -212,6 +213,14 @@ def handle (toks : List String) : String :=
       match toConstant (splitBar rest) v with
       | .error e => showE e
       | .ok ls => "ok " ++ joinSp (ls.map fun l => joinSp l ++ " |")
+    | none => "bad-op"
+  | "hoymoy" :: rest =>
+    match rest.mapM floatBits? with
+    | some fs =>
+      "ok " ++ joinSp (fs.map fun f =>
+        match Py.ratOfFloatBits (f * 60.0).toBits with
+        | some x => toString (hoyMoy x)
+        | none => "err:value")
     | none => "bad-op"
   | ["count", n] =>
     match n.toNat? with
